@@ -60,7 +60,7 @@ def rtl_extra(prop,tier,seed,repo,reg,known):
   return run_specs([sp for sp in rtl_specs() if prop in sp.prop_ids],tier,repo)
 
 
-FIX_COMMITS=['052e08e','9c79cb1','dce12fb','1afafb3','61a0063','7632b61','95f312b','22cc801','ef02dce','8ef5b7c','87ae370','ea7dd35','8b5fe28','f3d2cf6']
+FIX_COMMITS=['052e08e','9c79cb1','dce12fb','1afafb3','61a0063','7632b61','95f312b','22cc801','ef02dce','8ef5b7c','87ae370','ea7dd35','8b5fe28','f3d2cf6','10cf02b']
 
 PROPERTIES={
  'C04': dict(level='proof',
